@@ -271,7 +271,7 @@ def worlds_for(ctx, types, ids, doc, root, limit, nrandom):
 
 def gen_cases(ctx):
     limit, nrandom = (400, 120) if ctx.tier == "quick" else (20000, 3000)
-    cases, stats = [], {"documents": 0, "exhaustive_documents": 0, "max_sites": 0}
+    cases, stats = [], {"documents": 0, "exhaustive_documents": 0, "max_sites": 0, "limit": limit}
     for schema, types, ids, docs in ((SCHEMA, TYPES, OBJ_ID, DOCS), (COV_SCHEMA, COV_TYPES, COV_OBJ_ID, COV_DOCS)):
         for entry in docs:
             doc, varss = entry[0], entry[1]
@@ -286,13 +286,40 @@ def gen_cases(ctx):
     return cases, stats
 
 
+def oracle_ref(ctx, model, triples, rows, family="exec_sync"):
+    """(C): the implementation's response against the reference executor (Run/RefExecute.v) on the same case"""
+    mc_of = {ic: mc for ic, mc, _ in triples}
+    ref = run_family(model, "exec_ref", [mc_of[r[0]] for r in rows])
+    fam = ctx.cov["families"].setdefault("exec_ref", {"cases": 0, "agree": 0, "known": 0})
+    for (ic, iobs, mo, rd), r in zip(rows, ref):
+        fam["cases"] += 1
+        robs, cls = r.rsplit(" cls=", 1)
+        if robs.startswith("model-"):
+            raise MachineryError(f"reference executor failed on {rd}: {robs}")
+        if iobs.split(" log=")[0] == robs:
+            fam["agree"] += 1
+            continue
+        if cls != "-" and ctx.known_hit(cls):
+            fam["known"] += 1
+            continue
+        ctx.oracle_failures += 1
+        if len(ctx.violations) < 8:
+            ctx.violation({"family": family, "case": ic, "model_case": mc_of[ic], "case_readable": rd, "impl": iobs,
+                           "reference": robs, "what": "the response differs from the reference executor's "
+                           "(spec section 6 with apollo-compiler's documented choices)"})
+        else:
+            ctx.violations.append("(not written)")
+
+
 def run(ctx):
     props = check_props(ctx.pid)
     model = build_model()
     impl = build_impl()
     cases, stats = gen_cases(ctx)
+    limit = stats["limit"]
     triples, skipped, invalid_pairs = exec_triples(impl, cases)
     rows = correspond_pairs(ctx, impl, model, "exec_sync", triples, nontrivial=lambda rd, o: True)
+    oracle_ref(ctx, model, triples, rows)
     fam = ctx.cov["families"]["exec_sync"]
     fam.update(stats)
     fam["skipped_invalid_cases"] = skipped
